@@ -71,7 +71,7 @@ static void feed(const void * p, size_t n) {
 static const vh_stepres_t * decode(int cmd, const char * lit, size_t n, const char * cls) {
     char key[128]; unsigned mode = lit_hash(lit, n) % 8u; int want_inv = 1; size_t i;
     static const char * const modename[8] = { "lf", "lf", "lf", "lf", "crlf", "flush", "behind-a-message-then-flush", "behind-a-message-then-flush" };
-    if (n > 400 && mode >= 6) mode = 0;
+    if (n > 280 && mode >= 6) mode = 0; /* the message in front carries n + 12 sevens: kept below 300 digits, a finite double for any reader */
     vh_ctx_clear_capture(V);
     vh_buf_reset(&msg);
     if (mode >= 6) { vh_buf_adds(&msg, "D "); for (i = 0; i < n + 12; i++) vh_buf_addc(&msg, '7'); vh_buf_addc(&msg, '\n'); want_inv = 2; }
